@@ -130,7 +130,7 @@ prop("C18",
      assumptions=["each Queue method is atomic (holds the mutex for its whole body)"],
 )
 
-_TRIE_COQ = ["model/Trie.v", "model/Match.v", "proofs/TrieProofs.v", "chk/C01chk.v"]
+_TRIE_COQ = ["model/Trie.v", "model/Match.v", "proofs/TrieProofs.v", "proofs/TrieHistory.v", "chk/C01chk.v"]
 _TRIE_RULE = ("histories of 6-35 operations on a topics provider (2/3 memlockfree, 1/3 mem) with recording stub subscribers: subscribe/resubscribe (3 sessions, QoS 0-2, Retain Handling 0-2), "
     "unsubscribe, retained set/clear (QoS 0-2, empty payload, already-expired), publish, Retained(filter); topics and filters over the level alphabet {a, b, empty, $s, e-acute, +, #}, depth 1-4, "
     "biased to re-use earlier filters/topics and to derive topics from filters (that is where pruning and wildcards decide). Publish barrier: sentinel publish (single routing worker); "
@@ -143,8 +143,9 @@ prop("C01", harness="C01",
      rule=_TRIE_RULE,
      level_text="Theorem (coq/props/C01.v): for EVERY well-formed index tree and EVERY wildcard-free topic (any depth, empty levels, '$' prefixes, arbitrary bytes) the search walk shared by both topic "
                 "indexes returns a subscription IF AND ONLY IF its filter matches the topic under the MQTT rules of the property text (Match.v, written from the statement, not from the code). "
-                "Partial: the lifting to whole histories (tree after any history = abstract subscription map, well-formedness preserved by insert/remove/prune/retain) is stated (C01_publish_iff_full) but not yet proved; "
-                "it is checked on every generated history against BOTH providers by the differential run, with the specification evaluated independently of the tree model.",
+                "C01_publish_iff_full (proved): after ANY history of subscribe / re-subscribe / unsubscribe / retain-set / retain-clear the tree is well-formed and holds exactly the abstract subscription map of the history, "
+                "so a session receives a publish iff that map holds a matching filter of it - the property's statement over all histories. Tied to both providers by differential histories, with the specification evaluated independently of the tree model. "
+                "Not in this theorem: multiplicity/params of the copies (C08) and concurrency (C09).",
      level_note="Trusted: Coq kernel + vm_compute; hand translation of node.go (both tries, sequential semantics); strings.Split modelled by Trie.split (exercised: the harness passes raw topic strings).",
      trusted_base=["sync.Map / Go map semantics as association lists"],
      assumptions=["operations are executed one at a time (concurrency is C09)"],
@@ -154,10 +155,10 @@ prop("C07", harness="C07",
      n={"quick": 600, "thorough": 15000, "search": 2500},
      shrink_fields=["ops"],
      rule=_TRIE_RULE,
-     level_text="Theorems (coq/props/C07.v): at most one retained message per topic node; retain-set/clear leave the subscription list of the node they rebuild untouched. "
-                "Partial: the full statements (the filter-driven retained walk returns exactly the unexpired retained messages whose topic matches; retain operations change no subscription anywhere) "
-                "are stated but not yet proved; they are checked on every generated history against both providers and against the specification spec_retained (last non-empty retained publish per topic, "
-                "matched with Match.v). RETAIN=1 flagging of what is sent on subscribe is checked by C08's harness.",
+     level_text="Theorems (coq/props/C07.v): at most one retained message per topic node; setting or clearing a retained message never adds, removes or alters ANY subscription at any depth and keeps the tree well-formed "
+                "(C07_retain_preserves_all_subs, for every well-formed tree, hence after every history by C01_tree_is_abstract_map). "
+                "Partial: that the filter-driven retained walk returns exactly the unexpired retained messages whose topics match is not proved; it is checked on every generated history against both providers and "
+                "against the specification spec_retained (last non-empty retained publish per topic, matched with Match.v). RETAIN=1 flagging of what is sent on subscribe is C08's.",
      level_note="Trusted: as C01; message expiry enters as a boolean (already expired or not).",
      trusted_base=["sync.Map / Go map semantics as association lists"],
      assumptions=["expiry is modelled as a flag fixed at retain time"],
